@@ -35,7 +35,7 @@ enum Op {
     DeleteWorker { w: u8 },
     Deploy { g: u8, pipes: Vec<PSpec> },
     Teardown { idx: u8 },
-    Migrate { idx: u8, p: u8, target: u8 },
+    Migrate { idx: u8, p: u8, rep: Option<u8>, target: u8 },
     Drain { w: u8 },
     Rebalance,
     ConnCreate { n: u8, v: u8 },
@@ -70,11 +70,19 @@ struct Case {
     /// 1 = strict: every divergence is judged (replays of the known findings);
     /// 2 = only "sync reverts a local change" is judged (replays of the known findings about reverts)
     mode: u8,
+    /// judging starts at this operation index (replays that demonstrate a class which needs a prefix that
+    /// itself diverges); generated cases: 0
+    #[serde(default)]
+    judge_from: u16,
     /// `--heartbeat-timeout 0` (every silent worker is failed at the next tick) instead of the default 15 s
     timeout_zero: bool,
     /// a scaling policy given on the command line
     policy: bool,
     ops: Vec<Op>,
+    /// per operation: take worker / connector / pipeline names literally (may hit unknown names and be
+    /// rejected) instead of steering them to existing entries
+    #[serde(default)]
+    literal: Vec<bool>,
 }
 
 fn op() -> impl Strategy<Value = Op> {
@@ -85,18 +93,18 @@ fn op() -> impl Strategy<Value = Op> {
         1 => w.clone().prop_map(|w| Op::DeleteWorker { w }),
         4 => (0u8..3, proptest::collection::vec((proptest::option::weighted(0.6, 0u8..3), 1u8..3).prop_map(|(affinity, replicas)| PSpec { affinity, replicas }), 1..4)).prop_map(|(g, pipes)| Op::Deploy { g, pipes }),
         2 => (0u8..3).prop_map(|idx| Op::Teardown { idx }),
-        2 => (0u8..3, 0u8..3, w.clone()).prop_map(|(idx, p, target)| Op::Migrate { idx, p, target }),
+        3 => (0u8..3, 0u8..3, proptest::option::weighted(0.3, 0u8..2), w.clone()).prop_map(|(idx, p, rep, target)| Op::Migrate { idx, p, rep, target }),
         1 => w.clone().prop_map(|w| Op::Drain { w }),
         2 => Just(Op::Rebalance),
-        3 => (0u8..3, 0u8..4).prop_map(|(n, v)| Op::ConnCreate { n, v }),
-        2 => (0u8..3, 0u8..4).prop_map(|(n, v)| Op::ConnUpdate { n, v }),
+        3 => (0u8..3, 0u8..12).prop_map(|(n, v)| Op::ConnCreate { n, v }),
+        2 => (0u8..3, 0u8..12).prop_map(|(n, v)| Op::ConnUpdate { n, v }),
         1 => (0u8..3).prop_map(|n| Op::ConnDelete { n }),
         6 => Just(Op::Tick),
     ]
 }
 
 fn case() -> impl Strategy<Value = Case> {
-    (proptest::bool::weighted(0.3), proptest::bool::weighted(0.2), proptest::collection::vec(op(), 1..=30)).prop_map(|(timeout_zero, policy, ops)| Case { mode: 0, timeout_zero, policy, ops })
+    (proptest::bool::weighted(0.3), proptest::bool::weighted(0.2), proptest::collection::vec(op(), 1..=30), proptest::collection::vec(proptest::bool::weighted(0.15), 30)).prop_map(|(timeout_zero, policy, ops, literal)| Case { mode: 0, judge_from: 0, timeout_zero, policy, ops, literal })
 }
 
 // ------------------------------------------------------------------ environment: runtime + mock workers
@@ -222,7 +230,24 @@ fn brief_group(g: &J) -> String {
 
 /// (component, operation kind) pairs whose divergence is a recorded known finding (see /verif/known_findings):
 /// the leader changes these without replicating them.
-const MASK: &[(&str, &str)] = &[];
+const MASK: &[(&str, &str)] = &[
+    // worker.assigned_pipelines is replicated only by reconcile_placements
+    ("worker.assigned_pipelines", "deploy"),
+    ("worker.assigned_pipelines", "teardown"),
+    ("worker.assigned_pipelines", "migrate"),
+    ("worker.assigned_pipelines", "rebalance-with-migrations"),
+    // drain replicates nothing: worker removal, moved placements, assigned pipelines
+    ("worker-set", "drain"),
+    ("group", "drain"),
+    ("worker.assigned_pipelines", "drain"),
+    // migrations started by the health loop (auto-rebalance after reconcile) are not replicated
+    ("worker.assigned_pipelines", "tick-reconcile-rebalance"),
+    ("group", "tick-reconcile-rebalance"),
+    // a heartbeat that recovers an unhealthy worker is not replicated
+    ("worker.status", "heartbeat-recovery"),
+    // sync_from_raft never moves a worker back to ready: a follower keeps "unhealthy" after the worker re-registers
+    ("worker.status", "register-worker"),
+];
 
 fn masked(comp: &str, opkind: &str) -> bool {
     // VERIF_C38_SURVEY=1 (development aid): nothing is judged, the class histogram lists every divergence class
@@ -334,13 +359,13 @@ async fn tick(coordinator: &SharedCoordinator) -> TickInfo {
 
 // ------------------------------------------------------------------ running a history
 
-fn connector_body(n: u8, v: u8) -> J {
-    match v % 4 {
-        0 => json!({"name": format!("c{n}"), "connector_type": "mqtt", "params": {"host": format!("h{v}")}}),
-        1 => json!({"name": format!("c{n}"), "connector_type": "kafka", "params": {"brokers": "b:9092"}, "description": "d"}),
-        2 => json!({"name": format!("c{n}"), "connector_type": "console", "params": {}}),
+fn connector_body(name: &str, v: u8) -> J {
+    match if v == 11 { 3 } else { v % 3 } {
+        0 => json!({"name": name, "connector_type": "mqtt", "params": {"host": format!("h{v}")}}),
+        1 => json!({"name": name, "connector_type": "kafka", "params": {"brokers": "b:9092"}, "description": "d"}),
+        2 => json!({"name": name, "connector_type": "console", "params": {}}),
         // invalid (mqtt without host): the API rejects it
-        _ => json!({"name": format!("c{n}"), "connector_type": "mqtt", "params": {}}),
+        _ => json!({"name": name, "connector_type": "mqtt", "params": {}}),
     }
 }
 
@@ -407,6 +432,42 @@ async fn run_history(c: &Case) -> Result<Stats, Outcome> {
             let mut acked = true;
             let mut reverted: BTreeMap<&'static str, String> = BTreeMap::new();
             let pre_status: BTreeMap<String, String> = coordinator.read().await.workers.iter().map(|(k, w)| (k.0.clone(), w.status.to_string())).collect();
+            let lit = c.literal.get(oi).copied().unwrap_or(true);
+            // steer a worker index to a registered worker / a connector index to an existing (or free) name
+            let known_workers: Vec<String> = pre_status.keys().cloned().collect();
+            let worker_name = |w: u8| -> String {
+                if lit || known_workers.is_empty() {
+                    format!("w{w}")
+                } else {
+                    known_workers[w as usize % known_workers.len()].clone()
+                }
+            };
+            let known_conns: Vec<String> = {
+                let g = coordinator.read().await;
+                let mut v: Vec<String> = g.connectors.keys().cloned().collect();
+                v.sort();
+                v
+            };
+            let existing_conn = |n: u8| -> String {
+                if lit || known_conns.is_empty() {
+                    format!("c{n}")
+                } else {
+                    known_conns[n as usize % known_conns.len()].clone()
+                }
+            };
+            let free_conn = |n: u8| -> String {
+                if lit {
+                    return format!("c{n}");
+                }
+                (0..4u8).map(|k| format!("c{}", (n + k) % 4)).find(|c| !known_conns.contains(c)).unwrap_or(format!("c{n}"))
+            };
+            // steered operations need something to act on
+            let needs_worker = matches!(op, Op::Heartbeat { .. } | Op::DeleteWorker { .. } | Op::Drain { .. });
+            let needs_conn = matches!(op, Op::ConnUpdate { .. } | Op::ConnDelete { .. });
+            if !lit && ((needs_worker && known_workers.is_empty()) || (needs_conn && known_conns.is_empty())) {
+                stats.notes.insert("op_skipped:nothing_to_act_on".into());
+                continue;
+            }
             match op {
                 Op::Register { w } => {
                     let body = json!({"worker_id": format!("w{w}"), "address": e.addrs[*w as usize], "api_key": "k", "capacity": {"cpu_cores": 4, "pipelines_running": 0, "max_pipelines": 100}});
@@ -414,16 +475,17 @@ async fn run_history(c: &Case) -> Result<Stats, Outcome> {
                     acked = (200..300).contains(&s);
                 }
                 Op::Heartbeat { w, running } => {
-                    let (s, _) = send(&routes, "POST", &format!("/api/v1/cluster/workers/w{w}/heartbeat"), Some(json!({"events_processed": 10 * oi, "pipelines_running": running}))).await;
+                    let wn = worker_name(*w);
+                    let (s, _) = send(&routes, "POST", &format!("/api/v1/cluster/workers/{wn}/heartbeat"), Some(json!({"events_processed": 10 * oi, "pipelines_running": running}))).await;
                     acked = (200..300).contains(&s);
-                    if acked && pre_status.get(&format!("w{w}")).map(|s| s == "unhealthy").unwrap_or(false) {
+                    if acked && pre_status.get(&wn).map(|s| s == "unhealthy").unwrap_or(false) {
                         opkind = "heartbeat-recovery".into();
                         stats.recoveries += 1;
                         interesting_since_tick = true;
                     }
                 }
                 Op::DeleteWorker { w } => {
-                    let (s, _) = send(&routes, "DELETE", &format!("/api/v1/cluster/workers/w{w}"), None).await;
+                    let (s, _) = send(&routes, "DELETE", &format!("/api/v1/cluster/workers/{}", worker_name(*w)), None).await;
                     acked = (200..300).contains(&s);
                 }
                 Op::Deploy { g, pipes } => {
@@ -446,18 +508,33 @@ async fn run_history(c: &Case) -> Result<Stats, Outcome> {
                     let (s, _) = send(&routes, "DELETE", &format!("/api/v1/cluster/pipeline-groups/{gid}"), None).await;
                     acked = (200..300).contains(&s);
                 }
-                Op::Migrate { idx, p, target } => {
+                Op::Migrate { idx, p, rep, target } => {
                     if groups.is_empty() {
                         stats.notes.insert("op_skipped:no_group".into());
                         continue;
                     }
                     let gid = &groups[*idx as usize % groups.len()];
-                    let (s, _) = send(&routes, "POST", &format!("/api/v1/cluster/pipelines/{gid}/p{p}/migrate"), Some(json!({"target_worker_id": format!("w{target}")}))).await;
+                    // steer to a placement that exists and to a worker that is not its current one
+                    let (pname, tname) = {
+                        let g = coordinator.read().await;
+                        let mut names: Vec<(String, String)> = g.pipeline_groups.get(gid).map(|gr| gr.placements.iter().map(|(k, d)| (k.clone(), d.worker_id.0.clone())).collect()).unwrap_or_default();
+                        names.sort();
+                        if lit || names.is_empty() {
+                            (match rep { Some(r) => format!("p{p}#{r}"), None => format!("p{p}") }, format!("w{target}"))
+                        } else {
+                            let (pn, cur) = names[*p as usize % names.len()].clone();
+                            let others: Vec<&String> = known_workers.iter().filter(|w| **w != cur).collect();
+                            let t = if others.is_empty() { format!("w{target}") } else { others[*target as usize % others.len()].clone() };
+                            (pn, t)
+                        }
+                    };
+                    let pname_enc = pname.replace('#', "%23");
+                    let (s, _) = send(&routes, "POST", &format!("/api/v1/cluster/pipelines/{gid}/{pname_enc}/migrate"), Some(json!({"target_worker_id": tname}))).await;
                     acked = (200..300).contains(&s);
                     interesting_since_tick |= acked;
                 }
                 Op::Drain { w } => {
-                    let (s, _) = send(&routes, "POST", &format!("/api/v1/cluster/workers/w{w}/drain"), Some(json!({"timeout_secs": null}))).await;
+                    let (s, _) = send(&routes, "POST", &format!("/api/v1/cluster/workers/{}/drain", worker_name(*w)), Some(json!({"timeout_secs": null}))).await;
                     acked = (200..300).contains(&s);
                     interesting_since_tick |= acked;
                 }
@@ -470,17 +547,18 @@ async fn run_history(c: &Case) -> Result<Stats, Outcome> {
                     }
                 }
                 Op::ConnCreate { n, v } => {
-                    let (s, _) = send(&routes, "POST", "/api/v1/cluster/connectors", Some(connector_body(*n, *v))).await;
+                    let (s, _) = send(&routes, "POST", "/api/v1/cluster/connectors", Some(connector_body(&free_conn(*n), *v))).await;
                     acked = (200..300).contains(&s);
                     interesting_since_tick |= acked;
                 }
                 Op::ConnUpdate { n, v } => {
-                    let (s, _) = send(&routes, "PUT", &format!("/api/v1/cluster/connectors/c{n}"), Some(connector_body(*n, *v))).await;
+                    let cn = existing_conn(*n);
+                    let (s, _) = send(&routes, "PUT", &format!("/api/v1/cluster/connectors/{cn}"), Some(connector_body(&cn, *v))).await;
                     acked = (200..300).contains(&s);
                     interesting_since_tick |= acked;
                 }
                 Op::ConnDelete { n } => {
-                    let (s, _) = send(&routes, "DELETE", &format!("/api/v1/cluster/connectors/c{n}"), None).await;
+                    let (s, _) = send(&routes, "DELETE", &format!("/api/v1/cluster/connectors/{}", existing_conn(*n)), None).await;
                     acked = (200..300).contains(&s);
                     interesting_since_tick |= acked;
                 }
@@ -511,8 +589,12 @@ async fn run_history(c: &Case) -> Result<Stats, Outcome> {
             }
 
             // (2) re-synchronising must not revert anything
+            let judging = oi >= c.judge_from as usize;
             for (comp, what) in &reverted {
-                if c.mode == 0 && tainted.contains(comp) {
+                if !judging {
+                    continue;
+                }
+                if c.mode != 2 && tainted.contains(comp) {
                     stats.excluded.insert(format!("excluded:sync-reverts:{comp}"));
                 } else {
                     return Err(Outcome::fail(format!("sync-reverts:{comp}"), format!("op#{oi} tick: sync_from_raft changed the leader's view: {what}")));
@@ -537,7 +619,7 @@ async fn run_history(c: &Case) -> Result<Stats, Outcome> {
                             // a rejected request is not an acknowledged change: counted, not judged
                             stats.notes.insert(format!("note:rejected-{opkind}-left-{comp}-diverged"));
                             tainted.insert(comp);
-                        } else if c.mode == 2 {
+                        } else if c.mode == 2 || !judging {
                             tainted.insert(comp);
                         } else if c.mode == 0 && masked(comp, &opkind) {
                             stats.excluded.insert(format!("excluded:desync:{comp}:after-{opkind}"));
@@ -604,7 +686,7 @@ fn main() {
             check.finish();
         }
     }
-    check.explore("single_node", case, 150, 3000, run_case);
+    check.explore("single_node", case, 1500, 40_000, run_case);
     let n = NOT_LEADER_IN_BUDGET.load(Ordering::Relaxed);
     if n > 0 {
         check.inconclusive(format!("{n} histories: the single Raft node did not become leader within 10 s"));
